@@ -389,6 +389,9 @@ def check(run, fx, tier, floors=True):
     run.rule("T05-RD", "read_lookup_gpos: for every PosLookupType variant the arm builds the PosLookup variant of the same name from "
                        "read_subtables::<T> with T the subtable type of that lookup kind")
     rules_C04.reader_dispatch(run, fx, "T05-RD", "::read_lookup_gpos", "layout::PosLookupType", "layout::PosLookup", READERS)
+    if floors:
+        # the lookup flag selects the glyphs a positioning lookup sees, exactly as for substitution (shared with C04)
+        rules_C04.t04_flag(run, fx)
     t05_vf(run, fx)
     t05_vr(run, fx)
     t05_disp(run, fx)
